@@ -19,7 +19,8 @@ EXPLANATION = (
     "header it was checked against. The legacy claim-trie proof checker returns True only after the root "
     "comparison and every structural refusal."
 )
-TECHNIQUE = "static analysis: who-may-write, exact guard dominance, def-use dependence of the verdict on all inputs, branch-polarity check of the Merkle fold"
+EXACTNESS = "Second pass (DESIGN.md §10) — shared rule instances: checkpointed chunks stored at their own height only if they hash to the checkpoint (C07-D3 as C08-D6/CHECKPOINT) and the transaction hash that is folded up the branch (C05-D3 as C08-D7: double SHA-256 of the witness-free serialisation, cached only while the transaction is unchanged)."
+TECHNIQUE = "static analysis: who-may-write, exact guard dominance, def-use dependence of the verdict on all inputs, branch-polarity check of the Merkle fold; exact fact-set comparison of the tests dominating each effect and refusal (effect / refusal tables), fall-through path queries"
 NOT_DECIDED = "acceptance of every genuine proof for every tree shape (odd-level duplication is done by the server), SHA-256 itself"
 ASSUMPTIONS = ["headers.get(height) returns the locally validated header at that height (C07)"]
 
